@@ -98,7 +98,13 @@ bool CTRCommon::setKey(const uint8_t *key, size_t len)
         return false;
 
     // Set the key on the underlying block cipher.
-    return blockCipher->setKey(key, len);
+    if (!blockCipher->setKey(key, len))
+        return false;
+
+    // Discard any keystream left over from the previous key, so that
+    // the next block is generated with the new key as in the C library.
+    posn = 16;
+    return true;
 }
 
 /**
